@@ -316,7 +316,20 @@ def c09_7(c: Ctx) -> None:
     mod_reads = [n for n in own_nodes(u.node) if isinstance(n, ast.Call) and call_name(n) == 'get' and isinstance(n.func, ast.Attribute) and isinstance(n.func.value, ast.Name) and n.func.value.id.startswith('_') and n.func.value.id not in TASKVARS and n.func.value.id in c.prog.module(MOD).globals_assign | c.prog.module(MOD).globals_ann.keys()]
     for n in mod_reads:
         c.fail(u, f'event_bus reads a module-level cache: {U(n)[:60]}', 'event_bus returns a memoised bus instead of resolving against the live registry', node=n)
-    if per_handler or uses_results:
+    # "per handler" means: set where a handler starts.  A context variable set once per event (in step(), in the run loop) is inherited by handlers that run for ANOTHER bus
+    # in the same context: process_event is also called from the in-handler loop of `await event`, for events of every bus
+    eh = c.unit(SVC, 'EventBus.execute_handler')
+    not_per_handler = []
+    for var in sorted(per_handler):
+        sets = [w for w in c.cg.all_writes(var) if w.target == var and w.how == 'set']
+        if sets and not any(w.unit.key == eh.key for w in sets):
+            not_per_handler.append((var, sorted({w.unit.qualname for w in sets})))
+    for var, where_set in not_per_handler:
+        c.fail(u, f'event_bus reads {var}, which is set in {where_set} and not in execute_handler', f'{var} is not per-handler context: it is set in {where_set}, but handlers also run through the in-handler '
+               'loop of `await event` (process_event called from another bus\'s handler), where they inherit the awaiting handler\'s value: event.event_bus is the wrong bus there')
+    if not_per_handler:
+        pass
+    elif per_handler or uses_results:
         c.ok(where(u), f'event_bus derives the bus from per-handler context ({sorted(per_handler) or "result record"})')
     elif path_last:
         c.fail(u, f'return value selected by {U(path_last[0])}', 'inside a handler that runs after a forwarding handler, event.event_bus is the forwarded-to bus, not the bus running the handler', node=path_last[0],
